@@ -310,3 +310,6 @@ func (c *Client) Invoke(res *corpus.Resource, m *corpus.MethodSpec, call *Call, 
 	out, err = ep.readResult(m, outs, goKeys)
 	return out, wire, err
 }
+
+// SetTransport replaces the transport below the wire tap (scripted responses).
+func (c *Client) SetTransport(rt http.RoundTripper) { c.tap.rt = rt }
